@@ -7,7 +7,7 @@ use crate::mock::{new_mock, Handle, InEnd, Segmenter};
 use crate::reflex::{conn_close_frame, open_ok_frame, start_frame, tune_frame, Reflex};
 use crate::rng::Rng;
 use crate::run::{self, CaseResult, RunCtx, J};
-use crate::session::{ek, W};
+use crate::session::{ek, evar, W};
 use crate::wire::{self, WFrame};
 use amiquip::{Auth, Connection, ConnectionOptions, ConnectionTuning, Sasl};
 use amq_protocol::protocol::connection::AMQPMethod as Cn;
@@ -36,6 +36,12 @@ pub enum Srv {
     SendThenEnd(Vec<u8>, InEnd),
     /// send these bytes; every write the client attempts from now on fails (the peer is gone)
     SendThenFailWrites(Vec<u8>),
+    /// the transport takes nothing for a while; send the first bytes; once the client's answer
+    /// to them is stuck in its buffer, the peer sends the second bytes and is gone (every write
+    /// fails from then on). `false`: bytes and the transport taking data again come together
+    /// (one wake-up, readable and writable); `true`: the client is already inside the write
+    /// that will fail (a wake-up that said writable only) when the bytes arrive
+    StalledThenGone(Vec<u8>, Vec<u8>, bool),
     /// send a heartbeat every `ms` milliseconds and nothing else (a timeout must be configured)
     HeartbeatsOnly(u64),
     /// think for this many milliseconds before going on
@@ -310,6 +316,37 @@ pub fn run_script(o: &Opts, s: &Script, props: &FieldTable, seg: Segmenter, wfra
                     h.with(|st| st.fail_write_from = Some((st.write_calls, ErrorKind::ConnectionReset)));
                     h.inject(b.clone());
                 }
+                Srv::StalledThenGone(first, second, inside_write) => {
+                    h.with(|st| st.wscript.push_back(crate::mock::WStep::Stall));
+                    h.inject(first.clone());
+                    if !h.wait(W, |st| st.stall_hits > 0 || st.released) {
+                        res.inconclusive(format!("{}: the client never tried to write its answer", s.label));
+                        return;
+                    }
+                    if *inside_write {
+                        h.with(|st| st.hold_write = true);
+                        h.unstall();
+                        if !h.wait(W, |st| st.parked_in_write || st.released) {
+                            res.inconclusive(format!("{}: the client never came back to write", s.label));
+                            h.with(|st| st.hold_write = false);
+                            return;
+                        }
+                        h.with(|st| st.fail_write_from = Some((st.write_calls, ErrorKind::ConnectionReset)));
+                        h.inject(second.clone());
+                        h.with(|st| st.hold_write = false);
+                    } else {
+                        // (the bytes first, unannounced; then everything becomes visible at once)
+                        h.stage(second.clone());
+                        h.with(|st| {
+                            st.fail_write_from = Some((st.write_calls, ErrorKind::ConnectionReset));
+                            st.stall_active = false;
+                            if matches!(st.wscript.front(), Some(crate::mock::WStep::Stall)) {
+                                st.wscript.pop_front();
+                            }
+                        });
+                    }
+                    res.obs("closes_behind_a_stuck_answer", 1);
+                }
                 Srv::Pause(ms) => std::thread::sleep(Duration::from_millis(*ms)),
                 Srv::HeartbeatsOnly(ms) => {
                     // the broker is alive (it keeps sending heartbeats) but never gets round to
@@ -379,7 +416,13 @@ pub fn run_script(o: &Opts, s: &Script, props: &FieldTable, seg: Segmenter, wfra
         }
         e if e.starts_with("ServerClosedConnection") => {
             // (a CloseOk cannot be demanded from a client whose socket has just ended)
-            let socket_gone = s.steps.iter().flatten().any(|a| matches!(a, Srv::SendThenEnd(..) | Srv::SendThenFailWrites(..)));
+            // (one that ended for reading only - the broker shut down its sending side and
+            // waits for the answer - still takes it, unless the script's transport would-blocks)
+            let socket_gone = s.steps.iter().flatten().any(|a| match a {
+                Srv::SendThenEnd(_, InEnd::Eof) => wfrag.1 != 0,
+                Srv::SendThenEnd(..) | Srv::SendThenFailWrites(..) | Srv::StalledThenGone(..) => true,
+                _ => false,
+            });
             if !socket_gone && names.last().map(|s| s.as_str()) != Some("Connection.CloseOk") {
                 res.violate("close_not_answered", format!("{}: client wrote {:?}, the last frame must be Connection.CloseOk", s.label, names));
             }
@@ -459,6 +502,69 @@ pub fn run_script(o: &Opts, s: &Script, props: &FieldTable, seg: Segmenter, wfra
             other => res.violate("connection_unusable", format!("{:?}", other.done())),
         }
     }
+    for p in run::take_panics().iter().filter(|p| p.thread == "amiquip-io" || p.thread == "vh-open") {
+        res.violate("panic", format!("{}: {} at {}", p.thread, p.msg, p.loc));
+    }
+}
+
+/// Opening over TLS (`open_tls_stream`, the path of every amqps:// URL) against a peer that
+/// accepts the connection and then stays silent (kind 0), or that answers the ClientHello
+/// with something that is not TLS (kind 1): ConnectionTimeout after the configured time in
+/// the first case, an error straight away in the second, never a hang. How often the I/O
+/// thread asked the transport for bytes while it waited is recorded (a thread that spins
+/// instead of sleeping in poll asks hundreds of thousands of times).
+#[cfg(not(miri))]
+fn tls_open(kind: u8, timeout_ms: u64, res: &mut CaseResult) {
+    let (mock, h) = new_mock(Reflex { on_header_do: Some(vec![]), on_start_ok_do: Some(vec![]), on_tune_ok_do: Some(vec![]), on_open_do: Some(vec![]), ignore_conn_close: true, ..Reflex::default() });
+    h.with(|st| st.edges_only = true);
+    let connector = match native_tls::TlsConnector::new() {
+        Ok(c) => c,
+        Err(e) => {
+            res.inconclusive(format!("no TLS connector in this environment: {}", e));
+            return;
+        }
+    };
+    let t0 = Instant::now();
+    let opts = ConnectionOptions::<Auth>::default().connection_timeout(Some(Duration::from_millis(timeout_ms)));
+    let task = run::spawn("open", move || Connection::open_tls_stream(connector, "localhost", mock, opts, ConnectionTuning::default()));
+    // the ClientHello is the first thing on the wire (not the AMQP protocol header)
+    if !h.wait(W, |st| !st.out.is_empty() || st.released) {
+        res.violate("handshake_hangs", "TLS: nothing was written within 20 s".to_string());
+        return;
+    }
+    if h.peek(|st| st.out.first().copied()) == Some(b'A') {
+        res.violate("not_in_reaction", "TLS: the AMQP protocol header went out in the clear before the TLS handshake".to_string());
+    }
+    if kind == 1 {
+        h.inject(b"HTTP/1.1 400 Bad Request\r\n\r\n".to_vec());
+    }
+    let result = match task.join(Duration::from_millis(timeout_ms) + Duration::from_secs(10)) {
+        J::Done(r) => r,
+        _ => {
+            res.violate("handshake_hangs", format!("TLS, peer {}: open_tls_stream (connection_timeout {} ms) did not return", ["silent", "answers with something else"][kind as usize], timeout_ms));
+            return;
+        }
+    };
+    let elapsed = t0.elapsed();
+    let got = match &result {
+        Ok(_) => "Ok".to_string(),
+        Err(e) => evar(e),
+    };
+    res.obs("tls_opens", 1);
+    res.obs("tls_wait_read_calls", h.peek(|st| st.read_calls));
+    if kind == 0 {
+        res.obs("timeouts_observed", 1);
+        if got != "ConnectionTimeout" {
+            res.violate("wrong_result", format!("TLS, silent peer, connection_timeout {} ms: result {}, the statement assigns ConnectionTimeout", timeout_ms, got));
+        }
+        if elapsed < Duration::from_millis(timeout_ms) {
+            res.violate("timeout_too_early", format!("TLS: connection_timeout {} ms fired after {:?}", timeout_ms, elapsed));
+        }
+    } else if got != "TlsHandshake" && got != "FailedToConnect" {
+        res.violate("wrong_result", format!("TLS, peer answers the ClientHello with an HTTP error: result {}, expected the TLS failure", got));
+    }
+    res.sig = crate::rng::fnv_str(&format!("tls{}{}", kind, timeout_ms));
+    res.sample = Some(json!({"scenario": "open_tls_stream", "peer": if kind == 0 { "silent" } else { "answers with something that is not TLS" }, "connection_timeout_ms": timeout_ms, "result": got, "elapsed_ms": elapsed.as_millis() as u64, "transport_reads_while_waiting": h.peek(|st| st.read_calls)}));
     for p in run::take_panics().iter().filter(|p| p.thread == "amiquip-io" || p.thread == "vh-open") {
         res.violate("panic", format!("{}: {} at {}", p.thread, p.msg, p.loc));
     }
@@ -588,6 +694,44 @@ pub fn run(rc: &mut RunCtx) {
         res.sig = crate::rng::fnv_str(&s.label);
         res.sample = Some(json!({"server": s.label, "expect": s.expect}));
         run_script(&o, &s, &props, Segmenter::Whole, (usize::MAX, 0), &mut res);
+        rc.end(res);
+    }
+    // the broker refuses after Tune (or goes down) while the client's TuneOk and Open are
+    // stuck in a transport that takes nothing, and hangs up without waiting for anything
+    for (i, inside_write) in [false, true].iter().enumerate() {
+        let id = format!("close-behind-stuck-answer:{}", if *inside_write { "writable-only" } else { "readable-and-writable" });
+        if !rc.mine(&id) {
+            continue;
+        }
+        rc.begin(&id);
+        let mut res = CaseResult::new(id);
+        let mut r = Rng::for_case(seed, 16, 887_000 + i as u64);
+        let o = Opts { auth: 0, user: "u".into(), pass: "p".into(), locale: "en_US".into(), vhost: "/".into(), information: None, timeout_ms: Some(5000), channel_max: 0, frame_max: 0, heartbeat: 0 };
+        let props = server_props(&mut r);
+        let s = Script {
+            steps: [
+                vec![Srv::Send(start_frame("PLAIN", "en_US", &props), "Start")],
+                vec![Srv::StalledThenGone(tune_frame(0, 131072, 60), conn_close_frame(530, "NOT_ALLOWED - no such vhost"), *inside_write)],
+                vec![],
+            ],
+            expect: "ServerClosedConnection(530,\"NOT_ALLOWED - no such vhost\")".into(),
+            alt: vec![],
+            label: format!("Close while TuneOk/Open are stuck in the transport, then every write fails ({})", if *inside_write { "the client is inside the failing write when the Close arrives" } else { "one wake-up says readable and writable" }),
+        };
+        res.sig = crate::rng::fnv_str(&s.label);
+        res.sample = Some(json!({"server": s.label, "expect": s.expect}));
+        run_script(&o, &s, &props, Segmenter::Whole, (usize::MAX, 0), &mut res);
+        rc.end(res);
+    }
+    #[cfg(not(miri))]
+    for (kind, t) in [(0u8, 700u64), (0, 1500), (1, 3000)] {
+        let id = format!("tls:{}:{}", ["silent", "not-tls"][kind as usize], t);
+        if !rc.mine(&id) {
+            continue;
+        }
+        rc.begin_with_timeout(&id, Duration::from_secs(60));
+        let mut res = CaseResult::new(id);
+        tls_open(kind, t, &mut res);
         rc.end(res);
     }
     // a connection_timeout between one and two heartbeat intervals, server silent after Tune:
